@@ -225,6 +225,38 @@ MODEL_SWITCHES = ["freq", "brlenspr", "brlens_init", "keep", "clockpr", "heights
                   "disable_gmrf_rescaling"]
 
 
+INIT_SWITCHES = ["brlens_init", "keep", "heights_init", "root_height_init", "rate", "rate_init", "coalescent_init"]
+_REGRESSION_REF = {}
+
+
+def regression_reference(case):
+    """initial clock rate and root height of the same command line with -m JC69: the root-to-tip
+    regression uses the tree and the dates only, so its result cannot depend on the substitution model"""
+    ref = dict(case, model="JC69", C=1, I=False, part="ref")
+    key = json.dumps(ref, sort_keys=True, default=str)
+    if key not in _REGRESSION_REF:
+        out = None
+        try:
+            status, spec = run_cli(argv_of(ref))
+            if status == "emitted":
+                cwd = os.getcwd()
+                os.chdir(fixture())
+                try:
+                    with contextlib.redirect_stdout(io.StringIO()), contextlib.redirect_stderr(io.StringIO()):
+                        d = tt.load(spec)
+                finally:
+                    os.chdir(cwd)
+                out = {}
+                if "branchmodel.rate" in d:
+                    out["rate"] = [float(v) for v in d["branchmodel.rate"].tensor.detach().reshape(-1)]
+                if "tree" in d:
+                    out["root"] = [float(d["tree"].node_heights.detach().reshape(-1)[-1])]
+        except Exception:
+            out = None
+        _REGRESSION_REF[key] = out
+    return _REGRESSION_REF[key]
+
+
 def tree_core_switch_cases(tier):
     """Part B: every (sub-command, clock, heights, tree prior) combination x every level of every
     model/initialisation switch alone, on HKY (thorough: also GTR+G4+I)."""
@@ -236,6 +268,14 @@ def tree_core_switch_cases(tier):
             for c, h, p in combos:
                 b = {"sub": sub, "model": m, "C": C, "I": inv, "clock": c, "heights": h, "prior": p}
                 for f in MODEL_SWITCHES:
+                    if FACTORS[f][1](b):
+                        for lv in FACTORS[f][0]:
+                            out.append(dict(b, part="coreswitch", extra={f: lv}))
+            # SRD06 builds its two-partition likelihood on a separate path of the CLI: the switches that
+            # set initial values are crossed with it as well
+            for c, h, p in combos:
+                b = {"sub": sub, "model": "SRD06", "C": 1, "I": False, "clock": c, "heights": h, "prior": p}
+                for f in INIT_SWITCHES:
                     if FACTORS[f][1](b):
                         for lv in FACTORS[f][0]:
                             out.append(dict(b, part="coreswitch", extra={f: lv}))
@@ -718,6 +758,15 @@ def check_init(case, dic):
             expect("--rate -> branchmodel.rate", num("branchmodel.rate"), [float(ex["rate"])])
         elif clock and ex.get("rate_init") not in (None, "regression") and "branchmodel.rate" in dic:
             expect("--rate_init -> branchmodel.rate", num("branchmodel.rate"), [float(ex["rate_init"])])
+        if clock and case["model"] != "JC69" and "regression" in (ex.get("heights_init"), ex.get("rate_init")):
+            ref = regression_reference(case)
+            if ref:
+                if "rate" in ref and "branchmodel.rate" in dic and not ex.get("rate"):
+                    expect("regression -> branchmodel.rate (same as with -m JC69)", num("branchmodel.rate"),
+                           ref["rate"])
+                if "root" in ref and dic.get("tree") is not None and not ex.get("root_height_init"):
+                    expect("regression -> root height (same as with -m JC69)",
+                           [float(dic["tree"].node_heights.detach().reshape(-1)[-1])], ref["root"])
         tree = dic.get("tree")
         if clock and tree is not None:
             ntax = len(TAXA)
